@@ -29,8 +29,20 @@ def tls_sends(conn):
     return [(d, b"".join(r.raw for r in recs)) for d, recs in conn.sends]
 
 
-def tls_packets(conn, conn_id=0, **kw):
-    return cap.tcp_packets(conn_id, tls_sends(conn), **kw)
+def merged_sends(sends):
+    """consecutive sends of one direction become one write, so that records share segments however they are cut"""
+    out = []
+    for d, b in sends:
+        if out and out[-1][0] == d:
+            out[-1] = (d, out[-1][1] + b)
+        else:
+            out.append((d, b))
+    return out
+
+
+def tls_packets(conn, conn_id=0, merged=False, **kw):
+    sends = tls_sends(conn)
+    return cap.tcp_packets(conn_id, merged_sends(sends) if merged else sends, **kw)
 
 
 def record_ranges(conn):
@@ -165,6 +177,7 @@ class Flow:
 
 
 def tls_flow(scn, seed, idx, v6=False, server_port=443, key=(), **kw):
+    """kw: mss, merged, handshake, isn, cutter (see cap.tcp_packets / tls_packets)"""
     conn = tls_conn(scn, seed, key=("flow", idx) + tuple(key))
     ends = cap.Ends(idx, v6=v6, server_port=server_port)
     return Flow("tls", conn, ends, idx, tls_packets(conn, conn_id=idx, **kw))
